@@ -56,5 +56,5 @@ _GUARD_NESTED = {
     "params": {"kinds": {}, "maxstack": 4},
 }
 
-mach.install(globals(), "C08", ("EvProbe", "EvSched"), ("C08:",), PROFILES, n_quick=300, n_thorough=5000,
+mach.install(globals(), "C08", ("EvProbe", "EvSched"), ("C08:",), PROFILES, n_quick=300, n_thorough=25000,
              nontrivial=_nontrivial, level="proof", corpus=[_GUARD_BATCH, _GUARD_NESTED])
